@@ -771,6 +771,52 @@ fn all_connections_scenarios() -> Vec<String> {
     out
 }
 
+// ------------------------------------------------------------------ family: election (single calls of election_eval / start_new_election on one node)
+fn scenario_election(sc: &str) -> Result<Violations, String> {
+    // sc = "<role>.<members>.<own start time>.<candidate start time | new>"   role in {s,p,c} (StartingUp / Primary / Secoundary), members in {1,2}
+    use nundb::election_ops::{election_eval, start_new_election};
+    let p: Vec<&str> = sc.split('.').collect();
+    if p.len() != 4 { return Err("bad election scenario".into()); }
+    let (s1, mut sup): (Sender<String>, Receiver<String>) = channel(1000);
+    let (s2, mut rep): (Sender<String>, Receiver<String>) = channel(1000);
+    let own: u128 = p[2].parse().map_err(|_| "bad start time")?;
+    let dbs = Arc::new(Databases::new("u".into(), "p".into(), "me:1".into(), "ext:1".into(), s1, s2, HashMap::new(), own, true));
+    let role0 = match p[0] { "s" => ClusterRole::StartingUp, "p" => ClusterRole::Primary, _ => ClusterRole::Secoundary };
+    dbs.node_state.swap(role0 as usize, std::sync::atomic::Ordering::Relaxed);
+    dbs.add_cluster_member(ClusterMember { name: "me:1".into(), role: role0, sender: None });
+    if p[1] == "2" { dbs.add_cluster_member(ClusterMember { name: "other:1".into(), role: ClusterRole::Secoundary, sender: None }); }
+    let members = if p[1] == "2" { 2 } else { 1 };
+    let mut v: Violations = vec![];
+    let forced = p[3] == "new";
+    let cand: u128 = if forced { 0 } else { p[3].parse().map_err(|_| "bad candidate")? };
+    let d2 = dbs.clone();
+    let ok = catch_unwind(AssertUnwindSafe(|| { if forced { start_new_election(&d2); } else { election_eval(&d2, cand, &"other:1".to_string()); } })).is_ok();
+    if !ok { v.push("C10.safety".into()); return Ok(v); }
+    let sup_msgs = drain(&mut sup); let rep_msgs = drain(&mut rep);
+    let role = dbs.get_role();
+    let candidacies = rep_msgs.iter().filter(|m| m.contains("election candidate")).count();
+    let alive = rep_msgs.iter().filter(|m| m.contains("election alive")).count();
+    if forced || cand > own {
+        // the node stands: alone it is Primary at once, otherwise it announces exactly one candidacy carrying its start time, and it never stays undecided
+        if members == 1 { chk(&mut v, "C07.single-node-wins", role == ClusterRole::Primary && candidacies == 0); }
+        else { chk(&mut v, "C07.candidacy-announced", candidacies == 1 && rep_msgs.iter().any(|m| m.contains(&format!("election candidate {} ext:1", own)))); }
+        chk(&mut v, "C07.election-decides", role != ClusterRole::StartingUp);
+        if role == ClusterRole::Primary && role0 != ClusterRole::Primary { chk(&mut v, "C07.win-claims-primary", sup_msgs.iter().any(|m| m == "election-win self")); }
+    } else if cand < own {
+        chk(&mut v, "C07.older-candidate-wins", role == ClusterRole::Secoundary && alive == 1 && candidacies == 0 && sup_msgs.is_empty());
+    } else {
+        chk(&mut v, "C07.own-candidacy-ignored", role == role0 && rep_msgs.is_empty() && sup_msgs.is_empty());
+    }
+    Ok(v)
+}
+fn all_election_scenarios() -> Vec<String> {
+    let mut out = vec![];
+    for r in ["s", "p", "c"] { for m in ["1", "2"] { for own in ["5", "1000", "340282366920938463463374607431768211455"] {
+        for c in ["4", "5", "6", "0", "999", "1000", "1001", "340282366920938463463374607431768211454", "340282366920938463463374607431768211455", "new"] {
+            out.push(format!("{}.{}.{}.{}", r, m, own, c)); } } } }
+    out
+}
+
 // ------------------------------------------------------------------ family: http (one body = several commands; one reply entry per command)
 fn scenario_http(sc: &str) -> Result<Violations, String> {
     // sc = the HTTP body, commands separated by ';'
@@ -859,11 +905,14 @@ fn families() -> Vec<(&'static str, fn() -> Vec<String>, fn(&str) -> Result<Viol
          ("watch", all_watch_scenarios, scenario_watch), ("flood", all_flood_scenarios, scenario_flood),
          ("connections", all_connections_scenarios, scenario_connections),
          ("keymap", all_keymap_scenarios, scenario_keymap),
-         ("http", all_http_scenarios, scenario_http)]
+         ("http", all_http_scenarios, scenario_http),
+         ("election", all_election_scenarios, scenario_election)]
 }
 
 fn main() {
     std::panic::set_hook(Box::new(|_| {}));
+    // the election wait loops poll every 2 ms up to this timeout (lazy_static, read once): keep the two-member scenarios short
+    if std::env::var("NUN_ELECTION_TIMEOUT").is_err() { std::env::set_var("NUN_ELECTION_TIMEOUT", "6"); }
     if std::env::var("NUN_DBS_DIR").is_err() {
         let d = format!("/var/tmp/verif-replay-data/{}", std::process::id());
         std::fs::create_dir_all(&d).unwrap();
